@@ -223,3 +223,22 @@ def c_eval_concrete(expr, values):
     if z3.is_true(r) or z3.is_false(r):
         return z3.is_true(r)
     raise ValueError(f"not ground {r}")
+
+
+_COMPILERS = {}
+
+
+def real_compiler(fmt=None):
+    """a (cached) real Compiler for source-level replays; every replay leaves it reset (compile_c_stmt resets)"""
+    from rzilcompiler.Compiler import Compiler
+    from rzilcompiler.ArchEnum import ArchEnum
+    from rzilcompiler.Transformer.RZILTransformer import CodeFormat
+    import io
+    import contextlib
+    key = fmt or "READ_STATEMENTS"
+    if key not in _COMPILERS:
+        with contextlib.redirect_stdout(io.StringIO()):
+            _COMPILERS[key] = Compiler(ArchEnum.HEXAGON, code_format=CodeFormat[key])
+    c = _COMPILERS[key]
+    c.transformer.reset()
+    return c
